@@ -561,6 +561,31 @@ def run(h: Harness):
                                f"{sname}.apply changed the list object it was given: {len(mpool)} -> {len(given)} individuals", [line, name, seedv, sname, k])
                     if not w3.verify(f"step[{sname}]", f"{sname}.apply on {name} population", [line, name, seedv, sname, k]):
                         break
+            # (b'') a fitness function that fills and returns ONE preallocated list of plain floats; some individuals are evaluated
+            # before the step, the others by the step: what the first ones cached is still what it was
+            scores = [0.0, 0.0, 0.0]
+
+            def into_scores(p, scores=scores):
+                n = len(repr(p))
+                scores[0], scores[1], scores[2] = float(n % 23), float(n % 7) / 4, float(n % 5)
+                return scores
+            bop = MultiObjectiveProblem([False, True, False], into_scores)
+            some = [p for j, p in enumerate(pool) if j % 2 == 0]
+            safe(lambda: ev.evaluate(bop, some))
+            some = [p for p in some if p.has_fitness(bop)]
+            if some:
+                w4 = Watch(h, b, bop, is_dsge, f"{name}:")
+                w4.add(pool)
+                for sname, mk in (("elitism", lambda: ElitismStep()), ("tournament", lambda: TournamentSelection(3)),
+                                  ("lexicase", lambda: LexicaseSelection()),
+                                  ("par[elitism,seq[tournament,mutation]]", lambda: ParallelStep([ElitismStep(), SequenceStep(TournamentSelection(2), GenericMutationStep(1))], [1, 2]))):
+                    k = rng.randint(1, len(pool))
+                    st, out = safe(lambda: list(mk().apply(bop, ev, rep, r, list(pool), k, 1)))
+                    h.seen(f"{line}:{name}:{seedv}:buffer-step:{sname}", nontrivial=st == "ok")
+                    h.count(f"buffer-step:{sname}:{st}")
+                    if not w4.verify(f"step[{sname}]", f"{sname}.apply on a partly evaluated {name} population, multi-objective fitness function that fills and "
+                                     "returns one preallocated list of floats", [line, name, seedv, sname, k, "reused-score-list"]):
+                        break
             # steps that ran under ANOTHER problem leave what the individuals cached for the first problem as it was
             w2.verify("step[under another problem]", f"steps applied to the {name} population under a second problem (multi-objective, lexicase)",
                       [line, name, seedv, "second-problem"])
